@@ -794,3 +794,83 @@ func qtext(rg Range) string {
 	}
 	return rg.QText
 }
+
+// ---- the offers of an operation (API-handler level, shared by C07 and C08) ----
+
+func dedup(l []string) []string {
+	seen := map[string]bool{}
+	var out []string
+	for _, e := range l {
+		if !seen[e] {
+			seen[e] = true
+			out = append(out, e)
+		}
+	}
+	return out
+}
+
+// OfferSetDiff compares the offer list a router holds for an operation (observed) with what the
+// statement says an operation can produce: its declared produces list plus the API's default type
+// (def, "" = none). Only membership is compared (the order of a produces list is not kept by the
+// spec analyser). feature is "" when the sets agree, else the class of the first difference.
+func OfferSetDiff(observed, declared []string, def string) (feature, detail string) {
+	want := map[string]bool{}
+	for _, t := range declared {
+		want[t] = true
+	}
+	if def != "" {
+		want[def] = true
+	}
+	got := map[string]bool{}
+	for _, t := range observed {
+		got[t] = true
+	}
+	if def != "" && !got[def] {
+		return "default-type-missing", fmt.Sprintf("the API default %q is not among the operation's offers %q (declared produces %q)", def, observed, declared)
+	}
+	for _, t := range declared {
+		if !got[t] {
+			f := "declared-type-missing"
+			if strings.Contains(t, ";") {
+				f = "declared-type-with-params-missing"
+			}
+			return f, fmt.Sprintf("the declared type %q is not among the operation's offers %q (declared produces %q, default %q)", t, observed, declared, def)
+		}
+	}
+	for _, t := range observed {
+		if !want[t] {
+			return "undeclared-type-offered", fmt.Sprintf("%q is among the operation's offers %q but neither declared (%q) nor the API default (%q)", t, observed, declared, def)
+		}
+	}
+	return "", ""
+}
+
+// StatementOffers is the offer list of the statement: the declared produces list without the API
+// default, the default last. The order inside the declared part is taken from the observed list (it is
+// a map order fixed when the router is built); nothing else is taken from it: declared types the
+// observed list lacks are appended in declaration order, and types it holds beyond the declaration are
+// left out.
+func StatementOffers(observed, declared []string, def string) []string {
+	decl := map[string]bool{}
+	for _, t := range declared {
+		decl[t] = true
+	}
+	out := make([]string, 0, len(declared)+1)
+	placed := map[string]bool{}
+	for _, t := range observed {
+		if decl[t] && t != def && !placed[t] {
+			placed[t] = true
+			out = append(out, t)
+		}
+	}
+	for _, t := range dedup(declared) {
+		if t != def && !placed[t] {
+			placed[t] = true
+			out = append(out, t)
+		}
+	}
+	if def != "" {
+		out = append(out, def)
+	}
+	return out
+}
